@@ -28,6 +28,9 @@ fn main() {
     }
     // the subject's panics are caught where they are meaningful; keep the default hook quiet
     std::panic::set_hook(Box::new(|_| {}));
+    if args[1] == "c20-worker" {
+        std::process::exit(props::c20::worker_main(&args[2..]));
+    }
     if args[1] == "replay" {
         std::process::exit(props::replay::replay_file(&args[2]));
     }
